@@ -91,7 +91,7 @@ class HQL:
         if "state" in self.lexer.__dict__:
             p[0] = {p[1]: self.lexer.state.get(p_list[-1])}
         else:
-            if "=" in p_list[-1]:
+            if "=" in p_list[-1] and p_list[-1][:1] not in ("'", '"'):
                 p_list[-1] = p_list[-1].split("=")[-1]
             p[0] = {p_list[1]: p_list[-1]}
 
